@@ -159,6 +159,11 @@ pub enum Style {
     Dup,
     /// Dup plus the execution marker of Marker
     DupMarker,
+    /// include edges written with the absolute path of the dependency's output
+    AbsInclude,
+    /// Marker, but the shell of every marker command kills itself (SIGKILL) the first time it runs, after the
+    /// marker was written: the run fails, and no command may be run a second time
+    MarkerKillOnce,
 }
 
 #[derive(Clone, Copy, PartialEq, Eq, Debug)]
@@ -239,12 +244,15 @@ impl Proj {
             let y = rel_out(i, j);
             let y = y.as_str();
             let after = match self.style {
-                Style::Include | Style::Marker | Style::NoTail | Style::Dup | Style::DupMarker => false,
+                Style::Include | Style::Marker | Style::NoTail | Style::Dup | Style::DupMarker | Style::AbsInclude | Style::MarkerKillOnce => false,
                 Style::After => true,
                 Style::Mixed => k % 2 == 1,
             };
             if after {
                 s.push_str(&format!("TXTPP#after {y}\n-TXTPP#run cat {y}\n"));
+            } else if self.style == Style::AbsInclude {
+                let base = marker_dir.parent().map(|p| p.join("p")).unwrap_or_default();
+                s.push_str(&format!("TXTPP#include {}/{}\n", base.display(), out_name(j)));
             } else {
                 s.push_str(&format!("TXTPP#include {y}\n"));
             }
@@ -253,6 +261,10 @@ impl Proj {
             for j in self.g.deps(i) {
                 s.push_str(&format!("TXTPP#include ./{}\n", rel_out(i, j)));
             }
+        }
+        if self.style == Style::MarkerKillOnce {
+            let m = marker_dir.display();
+            s.push_str(&format!("-TXTPP#run echo x >> {m}/{x}; [ -e {m}/{x}.once ] || {{ : > {m}/{x}.once; kill -9 $$; }}\n"));
         }
         if matches!(self.style, Style::Marker | Style::DupMarker) {
             s.push_str(&format!("-TXTPP#run echo x >> {}/{x}\n", marker_dir.display()));
@@ -344,6 +356,8 @@ impl Case {
             "NoTail" => Style::NoTail,
             "Dup" => Style::Dup,
             "DupMarker" => Style::DupMarker,
+            "AbsInclude" => Style::AbsInclude,
+            "MarkerKillOnce" => Style::MarkerKillOnce,
             _ => Style::Include,
         };
         let pre = match v["pre"].as_str().unwrap_or("") {
@@ -684,7 +698,7 @@ pub fn check_obs(prop: &str, case: &Case, o: &Obs) -> Vec<Finding> {
                     out.push(fnd("output-missing", format!("{} missing after success", out_name(i))));
                 }
             }
-            if matches!(case.proj.style, Style::Marker | Style::DupMarker) && case.mode != Mode::Clean {
+            if matches!(case.proj.style, Style::Marker | Style::DupMarker | Style::MarkerKillOnce) && case.mode != Mode::Clean {
                 let m = o.markers[i];
                 let limit = 1;
                 if m > limit {
@@ -875,6 +889,11 @@ pub fn plan(prop: &str, thorough: bool) -> Vec<Case> {
                 cases.extend(layout_cases(g, Style::Include));
                 cases.extend(layout_cases(g, Style::After));
             }
+            // dependencies spelled with absolute paths
+            for g in graphs.iter().filter(|g| g.acyclic() && !g.edges().is_empty() && g.n <= 3 && (thorough || g.canonical() == g.adj)) {
+                let proj = Proj { g: *g, style: Style::AbsInclude, layout: false, err: None };
+                cases.extend(sel_cases(&proj, &[Pre::Stale], &[Mode::Build, Mode::InMemoryBuild], true));
+            }
             // every output path is a symbolic link into another directory
             for g in graphs.iter().filter(|g| g.acyclic() && !g.edges().is_empty() && g.n <= 3) {
                 for style in [Style::Include, Style::After] {
@@ -916,6 +935,11 @@ pub fn plan(prop: &str, thorough: bool) -> Vec<Case> {
                 if thorough || g.canonical() == g.adj {
                     cases.extend(alias_cases(&proj, thorough));
                 }
+            }
+            // commands whose shell dies by a signal the first time it runs: the run fails, nothing is run twice
+            for g in graphs.iter().filter(|g| g.n <= 2 && (thorough || g.canonical() == g.adj)) {
+                let proj = Proj { g: *g, style: Style::MarkerKillOnce, layout: false, err: None };
+                cases.extend(sel_cases(&proj, &[Pre::Stale], &[Mode::Build], false));
             }
             // every dependency listed twice (multi-edges in the dependency lists)
             for g in graphs.iter().chain(g4.iter()).filter(|g| !g.edges().is_empty() && (thorough || (g.n < 4 && g.canonical() == g.adj) || (g.n == 4 && g.edges().len() <= 3))) {
@@ -1038,7 +1062,7 @@ fn run_case(prop: &str, rep: &Report, case0: &Case, ci: usize) {
         // bind the abstract protocol model to the code: same choices, same begin/end events, same verdict
         // (verify of a cyclic project fails early on a missing output: another protocol path, not modelled)
         let verify_cyclic = case.mode == Mode::Verify && case.proj.g.cyc().intersection(&case.required()).next().is_some();
-        if case.extra.is_empty() && case.threads == 0 && o.run.clean() && !verify_cyclic && !case.proj.layout && case.proj.err.is_none() {
+        if case.extra.is_empty() && case.threads == 0 && o.run.clean() && !verify_cyclic && !case.proj.layout && case.proj.err.is_none() && case.proj.style != Style::MarkerKillOnce {
             let scan = case.inputs == ["."];
             let plain = scan || case.inputs.iter().all(|i| (0..case.proj.g.n).any(|k| out_name(k) == *i));
             if plain {
